@@ -371,6 +371,20 @@ def leg_js_bad_bytes(ns, res, spec):
                 for chunks in (None, [len(data)], [1] * len(data)):
                     reqs.append({'bytes_hex': data.hex(), 'chunks': chunks, 'encoding': 'utf-8', 'delim': ',', 'policy': 'quoted', 'has_header': False, 'comment_prefix': None})
                     meta.append((data, chunks, 'quoted', None, bad))
+        # a multi-byte sequence torn apart by ASCII text: the lead byte(s) end one chunk, pure-ASCII chunks follow, a later chunk starts with the
+        # continuation bytes - invalid at every chunking (a decoder that is bypassed for ASCII chunks would glue the halves together)
+        base = b'k1,v1\nk2,v2\nk3,v3\nk4,v4\n'
+        for lead, cont in ((b'\xc3', b'\xa9'), (b'\xe2', b'\x82\xac'), (b'\xe2\x82', b'\xac'), (b'\xf0', b'\x9f\x98\x80'), (b'\xf0\x9f', b'\x98\x80'), (b'\xf0\x9f\x98', b'\x80')):
+            for p in (0, 3, 6, 11):
+                for gap in (1, 2, 5, 7):
+                    data = base[:p] + lead + base[p:p + gap] + cont + base[p + gap:]
+                    n = len(data)
+                    a, b = p + len(lead), p + len(lead) + gap
+                    for chunks in (None, [n], [1] * n, [a, gap, n - b], [a] + [1] * gap + [n - b], [a, gap, len(cont), n - b - len(cont)], [a, gap + len(cont), n - b - len(cont)]):
+                        chunks = None if chunks is None else [c for c in chunks if c > 0]
+                        reqs.append({'bytes_hex': data.hex(), 'chunks': chunks, 'encoding': 'utf-8', 'delim': ',', 'policy': 'quoted', 'has_header': False, 'comment_prefix': None})
+                        meta.append((data, chunks, 'quoted', p, lead + b'...' + cont))
+                        res.count('js_torn_sequence_cases')
         outs = node.call({'op': 'read_batch', 'cases': reqs})['results']
         for (data, chunks, policy, p, bad), o in zip(meta, outs):
             res.evaluations += 1
@@ -819,7 +833,7 @@ def summarize(tier, seed, m):
     return {
         'rule': 'fault enumeration: for each of %d query shapes (streaming, WHERE, header, UPDATE, ORDER BY, TOP, GROUP BY, DISTINCT, DISTINCT COUNT, UNNEST, multi-match JOIN, LEFT JOIN star, None output) the output stream raises BrokenPipeError at every write index k in 1..writes+1 (text sink and raw byte sink behind the writer\'s TextIOWrapper; large outputs sampled), and a user writer returns False at every k; the same two fault enumerations over generated queries of every clause combination (C01-C05 generators, random tables); an invalid UTF-8 sequence at every offset x 7 sequences x 5 chunk sizes (Python reader) and x 6 deliveries x 2 policies through the JS bulk and stream readers, plus truncated sequences as the whole input or right after the last line break; CR / CRLF / LF files of up to 35 KiB whose line break ends exactly at, one before or one after a 1 / 2 / 8 / 16 / 24 KiB buffer boundary with the invalid byte 3, 700 or 5000 bytes later (stream and query_csv); the same invalid sequences with the table on standard input - in-process through a replaced sys.stdin whose own error handler is surrogateescape / replace / strict / ignore, and through the command line (stdin and --input) under LC_ALL=C, C.UTF-8, PYTHONUTF8=1, PYTHONIOENCODING=utf-8:replace / :strict, for queries that do and do not print the damaged cell; %d descriptor scenarios (success, parse / syntax / runtime / IO error, missing input, missing join table) x header flag with every file object opened by the CSV / sqlite front-ends tracked; the command line writing 30000 rows into a real OS pipe whose reader closes after N bytes (exit status 0, silent stderr, delivered bytes a prefix). distinct_nontrivial counts enumerated fault points.' % (len(SHAPES), len(DESCRIPTOR_SCENARIOS)),
         'exhaustive': True,
-        'required': ['js_bad_byte_runs:bulk', 'js_bad_byte_runs:stream', 'generated_false_runs', 'generated_pipe_runs', 'generated_faults_triggered', 'broken_pipe_runs', 'broken_pipe_runs_writer_closes_stream', 'descriptor_runs_output_fifo', 'broken_pipe:text', 'broken_pipe:bytes', 'faults_triggered', 'writer_protocol_runs', 'bad_byte_runs', 'bad_byte_big_runs', 'bad_byte_wide_line_runs', 'bad_byte_after_boundary_break_runs', 'stdin_bad_byte_runs', 'cli_bad_byte_runs:stdin', 'cli_bad_byte_runs:file', 'records_delivered_before_decode_error', 'descriptor_runs', 'files_tracked', 'descriptor_runs_sqlite', 'real_pipe_runs'],
+        'required': ['js_torn_sequence_cases', 'js_bad_byte_runs:bulk', 'js_bad_byte_runs:stream', 'generated_false_runs', 'generated_pipe_runs', 'generated_faults_triggered', 'broken_pipe_runs', 'broken_pipe_runs_writer_closes_stream', 'descriptor_runs_output_fifo', 'broken_pipe:text', 'broken_pipe:bytes', 'faults_triggered', 'writer_protocol_runs', 'bad_byte_runs', 'bad_byte_big_runs', 'bad_byte_wide_line_runs', 'bad_byte_after_boundary_break_runs', 'stdin_bad_byte_runs', 'cli_bad_byte_runs:stdin', 'cli_bad_byte_runs:file', 'records_delivered_before_decode_error', 'descriptor_runs', 'files_tracked', 'descriptor_runs_sqlite', 'real_pipe_runs'],
         'assumptions': ['"promptly": no further stream write and at most one further input read after the pipe broke', 'set_header has no return value, so a pipe that breaks while the header line is written can only be noticed at the first data write (one further write attempt tolerated in that phase only); a buffering query (aggregates, ORDER BY, DISTINCT COUNT) issues that write after it has consumed its input, so the read bound is applied to faults at data writes', 'finish being (not) called on failing runs is not demanded'],
     }
 
